@@ -132,6 +132,7 @@ func verifVFSPut(name string, content []byte) {
 func verifVFSDel(name string) { verifos.Remove(name) }
 func verifTask(name string, notification bool) {}
 func verifSched(explore bool)                     {}
+func verifMapOrder(explore bool)                  {}
 `
 
 type replayCase struct {
@@ -158,7 +159,13 @@ func newReplayer(p *Program) (*replayer, error) {
 	return &replayer{p: p, tmp: tmp, bins: map[string]string{}}, nil
 }
 
-func (r *replayer) Close() { os.RemoveAll(r.tmp) }
+func (r *replayer) Close() {
+	if os.Getenv("GOSX_KEEP") != "" {
+		fmt.Println("replay directory kept:", r.tmp)
+		return
+	}
+	os.RemoveAll(r.tmp)
+}
 
 // patchOverride rewrites file src so that function target (name, optional receiver type name) is
 // renamed to <name>__verifOrig and a forwarding function with the original name calls repl.
@@ -401,7 +408,9 @@ func (r *replayer) run(bin, entryRel, setup string, rc *replayCase, file string,
 		cmd = exec.CommandContext(ctx, "taskset", "-c", fmt.Sprintf("0-%d", n-1), bin, "-test.run", "^TestVerifReplay$", "-test.timeout", "0")
 	}
 	cmd.Dir = filepath.Join(r.p.repo, entryRel)
-	cmd.Env = append(os.Environ(), "VERIF_REPLAY="+file, "VERIF_SETUP="+setup)
+	// GOMAXPROCS > 1 even under a one-CPU affinity mask: the OS then interleaves the goroutines' threads,
+	// which the race detector needs to observe schedule-dependent races (runtime.NumCPU is unaffected)
+	cmd.Env = append(os.Environ(), "VERIF_REPLAY="+file, "VERIF_SETUP="+setup, "GOMAXPROCS=8")
 	out, err := cmd.CombinedOutput()
 	r.Runs++
 	res := &replayResult{Output: string(out)}
